@@ -44,6 +44,60 @@ def stable_perms(parts, rng, limit=6):
     return out
 
 
+def perm_inner(parts, rng):
+    """The parts inside every nested statement (also the members of sibling / braced combinations) in another order;
+    parts of the same component type keep their relative order."""
+    def shuffled(st):
+        st = [inner(p) for p in st]
+        if len(st) < 2:
+            return st
+        idx = list(range(len(st)))
+        rng.shuffle(idx)
+        by = {}
+        for i in sorted(idx):
+            by.setdefault(type_of(st[i]), []).append(i)
+        it = {k: iter(v) for k, v in by.items()}
+        return [st[next(it[type_of(st[i])])] for i in idx]
+
+    def inner(p):
+        if p[0] == 'nested':
+            return ('nested', p[1], p[2], p[3], shuffled(p[4]))
+        if p[0] == 'nsib':
+            return ('nsib', p[1], p[2], [shuffled(st) for st in p[3]])
+        if p[0] == 'ncombo':
+            def nt(t):
+                return ('leaf', inner(t[1])) if t[0] == 'leaf' else ('op', t[1], nt(t[2]), nt(t[3]))
+            return ('ncombo', p[1], nt(p[2])) + tuple(p[3:])
+        return p
+    return [inner(p) for p in parts]
+
+
+def norm_commutative(dump):
+    """A parse dump with the operands of the operator chain at the top of every nested component sorted: the order in which
+    the parser joins sibling nested statements depends on its extraction passes (DESIGN.md 9.4), not on what is written."""
+    def chain(x, op):
+        if x[0] == 'C' and x[6] == op and not x[4] and not x[5] and not x[2] and not x[3]:
+            return chain(x[7], op) + chain(x[8], op)
+        return [x]
+
+    def node(n, complex_root=False):
+        if n[0] == 'L':
+            e = n[6]
+            if isinstance(e, tuple) and e[0] == 'T':
+                e = ('T', [(f, node(x, f in TX.COMPLEX_FIELD_NAMES)) for f, x in e[1]])
+            elif isinstance(e, tuple) and e[0] == 'NS':
+                e = ('NS', [node(x) for x in e[1]])
+            return ('L', n[1], n[2], n[3], n[4], n[5], e, [node(x) for x in n[7]])
+        if complex_root:
+            ops = sorted((node(o) for o in chain(n, n[6])), key=repr)
+            return ('chain', n[1], n[6], ops)
+        return ('C', n[1], n[2], n[3], n[4], n[5], n[6], node(n[7]), node(n[8]))
+    try:
+        return node(rnode(dump))
+    except Exception:
+        return dump
+
+
 def with_filler(parts, rng, everywhere=True):
     """Unannotated words at every gap, at top level and inside nested statements."""
     def deep(p):
@@ -54,6 +108,8 @@ def with_filler(parts, rng, everywhere=True):
                 return ('leaf', deep(t[1])) if t[0] == 'leaf' else ('op', t[1], nt(t[2]), nt(t[3]))
             # also between the opening brace of the combination and its first member
             return ('ncombo', p[1], nt(p[2]), rng.choice(FILLERS))
+        if p[0] == 'nsib':
+            return ('nsib', p[1], p[2], [with_filler(st, rng) for st in p[3]])
         if p[0] == 'pairs':
             def pt(t):
                 if t[0] == 'leaf':
@@ -140,6 +196,18 @@ def gen(tier, seed):
             bases.append(("nested", [mk(prop), mk(prop), mk(comp), ('comp', 'Cex', '', '', ('leaf', tg.word()))]))
     for _ in range(14 if tier == "quick" else 300):
         bases.append(("nested", tg.stmt(rng.choice([1, 2]), maxleaves=2, allow_pairs=False, nest_syms=TX.NEST, nest_p=1.0)))
+    # sibling nested statements joined by a written operator (no braces); members hold a combination in parentheses of its
+    # own followed by other components
+    for _ in range(8 if tier == "quick" else 120):
+        sym = rng.choice(['Cac', 'Cex', 'Bdir', 'Bind'])
+        def member():
+            st = [('comp', 'A', '', '', ('leaf', tg.word())),
+                  ('comp', 'I', '', '', ('comb', '', ('sh', '', ('op', rng.choice(TX.OPS), ('leaf', tg.word()), ('leaf', tg.word())), ''), '')),
+                  ('comp', rng.choice(['Bdir', 'Cex'] if sym not in ('Bdir', 'Cex') else ['Bind', 'E']), '', '', ('leaf', tg.word()))]
+            rng.shuffle(st)
+            return st
+        bases.append(("siblings", [('comp', 'A', '', '', ('leaf', tg.word())), ('comp', 'I', '', '', ('leaf', tg.word())),
+                                   ('nsib', sym, rng.choice(['XOR', 'OR']), [member() for _ in range(2)])]))
     c3 = [c for c in C03.gen("quick", seed) if c[0] == "P1"]
     for _, parts in c3[:8 if tier == "quick" else 22]:
         bases.append(("pairs", parts))
@@ -148,6 +216,9 @@ def gen(tier, seed):
         if C02.member_contains_nesting(parts) or C02.ncombo_in_nested_with_siblings(parts) or C03.pairs_in_nested_with_sibling_combination(parts):
             continue     # outside the region the parser accepts (known findings of C02 / C03)
         vs = [("perm", v) for v in stable_perms(parts, rng, 5)]
+        if any(p[0] in ('nested', 'nsib', 'ncombo') for p in parts):
+            vs.append(("perm-inner", perm_inner(parts, rng)))
+            vs.append(("perm-inner", perm_inner(parts, rng)))
         vs.append(("filler", with_filler(parts, rng)))
         vs.append(("filler", with_filler(parts, rng, everywhere=False)))
         if vs and vs[0][0] == "perm":
@@ -213,6 +284,13 @@ def run(args):
                 b = table[(ci, 0, mode)][1]
                 if obs is None or b is None:
                     continue
+                if vk == "perm-inner":
+                    # reordering inside nested statements: the parsed statement up to the order in which sibling nested
+                    # statements are joined (the exports number the nested statements in that order)
+                    if mode != "parse":
+                        continue
+                    if obs[0] == b[0] and [norm_commutative(x) for x in obs[1]] == [norm_commutative(x) for x in b[1]]:
+                        continue
                 if obs != b:
                     if "filler" in vk and lead_in_combination(vs[vi - 1][1]):
                         # known finding F27: text between the opening brace of a combination of nested statements and its first
